@@ -473,6 +473,16 @@ func genOp(t *rapid.T, method string, maxCalls int, big bool) Op {
 	o.Produces = rapid.SampledFrom([]string{mtJSON, mtText, mtBytes}).Draw(t, "produces")
 	o.Status = rapid.SampledFrom([]int{200, 200, 201, 202, 203, 204, 206, 299}).Draw(t, "status")
 	o.Auth = genAuth(t)
+	// an API key sent in the query may carry the very name of one of the operation's form fields: the security
+	// scheme's key and the form field are different things, and a form field is looked up in the body only
+	if o.Auth.Kind == "apikey-query" && rapid.IntRange(0, 1).Draw(t, "auth-clash") == 0 {
+		for _, d := range o.Decls {
+			if d.In == "form" {
+				o.Auth.Name = d.Name
+				break
+			}
+		}
+	}
 	ncalls := rapid.IntRange(1, maxCalls).Draw(t, "ncalls")
 	for ci := 0; ci < ncalls; ci++ {
 		var c Call
